@@ -23,7 +23,8 @@ from pyxel import __version__
 from pyxel.data_structure import Charge, Image, Photon, Pixel, Scene, Signal
 from pyxel.outputs.utils import save_to_files
 from pyxel.pipelines import Processor, ResultId, get_result_id, result_keys
-from pyxel.util import _verif, set_random_seed
+from pyxel.util import set_random_seed
+from pyxel.util import _verif
 
 if TYPE_CHECKING:
     import xarray as xr
